@@ -9,6 +9,7 @@ import (
 	"math"
 	"regexp"
 	"strings"
+	"unicode/utf8"
 
 	"github.com/issue9/mux/v9/types"
 )
@@ -191,6 +192,20 @@ func (seg *Segment) Similarity(s1 *Segment) int {
 		return -1
 	case s1.Type != seg.Type: // 完全不同的节点
 		return 0
+	case seg.Type == Regexp:
+		// 后缀是正则表达式的一部分，不能从多字节字符的中间分隔，比如 é(C3 A9) 与 è(C3 A8)，否则表达式无法编译。
+		l := longestPrefix(s1.Value, seg.Value)
+		if l <= 0 || l >= len(seg.Value) || utf8.RuneStart(seg.Value[l]) {
+			return l
+		}
+
+		for l > 0 && !utf8.RuneStart(seg.Value[l]) {
+			l--
+		}
+		if l > 0 && seg.Value[l-1] == endByte { // 参数之后必须要有一个或以上的普通字符
+			return 0
+		}
+		return l
 	default:
 		return longestPrefix(s1.Value, seg.Value)
 	}
